@@ -177,7 +177,11 @@ class Leaf:
       sl = tuple(slice(a, b) for a, b in blk)
       gb = gt[sl]
       for ax in self.axes:
-        gb = np.moveaxis(np.tensordot(precs[k], gb, axes=[[1], [ax]]), 0, ax)
+        # out[.., j, ..] = sum_i g[.., i, ..] P[i, j] (the documented
+        # application; identical to P g for the symmetric roots, and the
+        # convention that matters for int16-quantised, slightly
+        # non-symmetric stored preconditioners)
+        gb = np.moveaxis(np.tensordot(precs[k], gb, axes=[[0], [ax]]), 0, ax)
         k += 1
       out[sl] = gb
     return out.reshape(self.shape)
